@@ -1,11 +1,13 @@
 #!/bin/bash
-# try_seed.sh <seed-id> <check-id>...   apply seeded/<seed-id>/patch.diff to /repo, run the checks, undo.
+# try_seed.sh <seed-id> <check-id>...   run checks against a scratch copy of /repo's HEAD with seeded/<seed-id>/patch.diff applied
+# (VERIF_REPO points the checks at the copy; /repo itself is not touched), then regenerate coq/Gen from /repo.
 sid=$1; shift
 cd /verif
-git -C /repo apply /verif/seeded/$sid/patch.diff || { echo "cannot apply"; exit 2; }
-trap 'git -C /repo checkout -- . ; git -C /repo status --short | head -3' EXIT
+work=$(mktemp -d -p /dev/shm tryseed.XXXXXX)
+trap 'rm -rf "$work"; python3 /verif/tools/gen.py >/dev/null 2>&1' EXIT
+git -C /repo archive HEAD | tar -x -C "$work"
+( cd "$work" && git init -q . && git apply /verif/seeded/$sid/patch.diff ) || { echo "cannot apply"; exit 2; }
 for c in "$@"; do
   echo "== seed $sid / check $c"
-  python3 tools/vcheck.py $c 2>&1 | tail -4
-  echo "exit=$?"
+  VERIF_REPO=$work python3 tools/vcheck.py $c 2>&1 | tail -4
 done
